@@ -142,7 +142,7 @@ def check_case(sink, c, o):  # noqa: C901
 def reduce_case(sink, seed, idx):  # noqa: C901
     rng = gen.case_rng(seed, 'c03red', idx)
     desc, prof = gen.gen_desc(rng, rng.choice(['plain', 'none', 'seq', 'mixed']), 16)
-    style = rng.choice(['int', 'str', 'bytes', 'bool'])
+    style = rng.choice(['int', 'str', 'bytes', 'bool', 'seq', 'seq'])
     cnt = [0]
 
     def leaf_of(d):
@@ -153,6 +153,11 @@ def reduce_case(sink, seed, idx):  # noqa: C901
             return rng.choice(['a', 'bb', '', 'c'])
         if style == 'bytes':
             return rng.choice([b'a', b'', b'xy'])
+        if style == 'seq':
+            # iterable leaves of several types: only some of them can be added to a given start value
+            n = rng.randrange(5)
+            pure = idx % 3 == 0
+            return rng.choice([U.ListSub([n]), U.ListSub([n, n])] if pure else [U.ListSub([n]), U.ListSub([]), U.TupleSub((n,)), 'ab', frozenset([n]), b'x'])
         return rng.random() < 0.6
 
     tree, _ = gen.materialize(desc, rng, leaf_of=leaf_of)
@@ -177,11 +182,15 @@ def reduce_case(sink, seed, idx):  # noqa: C901
         sink.check(same, f'reduce/{name}', f'{name} equals the python fold over tree_leaves', ident, lambda: (got, want, lv))
 
     both('tree_reduce', lambda: optree.tree_reduce(operator.add, tree, **kw), lambda: functools.reduce(operator.add, lv))
-    init = {'int': 100, 'str': 'I', 'bytes': b'I', 'bool': 0}[style]
+    init = {'int': 100, 'str': 'I', 'bytes': b'I', 'bool': 0, 'seq': []}[style]
     both('tree_reduce/initial', lambda: optree.tree_reduce(operator.add, tree, init, **kw), lambda: functools.reduce(operator.add, lv, init))
     if style in ('int', 'bool'):
         both('tree_sum', lambda: optree.tree_sum(tree, **kw), lambda: sum(lv))
         both('tree_sum/start', lambda: optree.tree_sum(tree, 10, **kw), lambda: sum(lv, 10))
+    elif style == 'seq':
+        for st in ([], ['s'], (), ('s',)):
+            both(f'tree_sum/{type(st).__name__}-start', lambda: optree.tree_sum(tree, st, **kw), lambda: sum(lv, st))
+        sink.count('reduce-seq-cases')
     elif style == 'str':
         both('tree_sum/str', lambda: optree.tree_sum(tree, 'S', **kw), lambda: ''.join(['S', *lv]))
     else:
@@ -269,6 +278,7 @@ def run_shard(sink, tier, seed, shard):
 def finalize(sink, tier, seed):
     sink.require('oracle:tree_iter returns the identical leaves as tree_flatten')
     sink.require('reduce-cases')
+    sink.require('reduce-seq-cases', 100)
     sink.require('all_leaves-false-cases', 100)
     sink.require('reduce-empty-trees')
     sink.require('error-class:over-deep')
